@@ -23,15 +23,51 @@ Theorem C10_client_side_clean :
 Proof. exact client_side_clean. Qed.
 Print Assumptions C10_client_side_clean.
 
-(* (2b) both sides: after any history in which all calls have exited and the client's frames have
-   arrived, nothing is tracked and no h2 stream is open on either side *)
-Theorem C10_no_open_streams :
+(* (2b) both sides: after any history in which all calls have exited, everything the client's h2 had
+   to send has been written and the client's frames have arrived, nothing is tracked and no h2 stream
+   is open on either side.
+   FULL STATEMENT -- false of the faithful model (finding D21 "RST held back under back-pressure",
+   refuted per call by C10_client_exit_reaches_server_refuted): the same with `cpaused s = false` in
+   place of the last hypothesis:
+     all_calls is_cexited s -> all_calls (fun k => negb (is_running k)) s ->
+     all_calls (fun k => match k_qc k with [] => true | _ => false end) s -> cpaused s = false ->
+     creg s = [] /\ sreg s = [] /\ open_out s = 0 /\ open_in s = 0.
+   The extra hypothesis `k_held k = false` excludes exactly the calls whose context exit ran
+   reset_nowait while writing was paused and after which nothing has been written on the connection. *)
+Theorem C10_no_open_streams_partial :
   forall n m ops, let s := run ops (init n m) in
   all_calls is_cexited s -> all_calls (fun k => negb (is_running k)) s ->
   all_calls (fun k => match k_qc k with [] => true | _ => false end) s ->
+  all_calls (fun k => negb (k_held k)) s ->
   creg s = [] /\ sreg s = [] /\ open_out s = 0 /\ open_in s = 0.
-Proof. exact no_open_streams. Qed.
-Print Assumptions C10_no_open_streams.
+Proof. exact no_open_streams_partial. Qed.
+Print Assumptions C10_no_open_streams_partial.
+
+(* (2b') per call, whatever the handler does: the client has left the context, its h2 has written
+   everything, the frames have arrived => the stream counts on neither side.
+   FULL STATEMENT -- with `cpaused s = false` in place of `k_held k = false` -- is false (D21): *)
+Theorem C10_client_exit_reaches_server_partial :
+  forall n m ops c k, let s := run ops (init n m) in
+  nth_error (calls s) c = Some k -> k_cph k = CExited -> k_qc k = [] -> k_held k = false ->
+  h2_open (k_ch k) = false /\ h2_open (k_sh k) = false.
+Proof. exact client_exit_reaches_server_partial. Qed.
+Print Assumptions C10_client_exit_reaches_server_partial.
+
+(* witness held_witness_running = open, deliver, pause_writing, context exit, resume_writing: quiescent,
+   writable, the client is done -- the server still tracks the call and its stream still counts *)
+Theorem C10_client_exit_reaches_server_refuted :
+  exists n m ops c k, let s := run ops (init n m) in
+    nth_error (calls s) c = Some k /\ k_cph k = CExited /\ k_qc k = [] /\
+    cpaused s = false /\ quiescent s = true /\
+    creg s = [] /\ open_out s = 0 /\ sreg s = [c] /\ open_in s = 1 /\ h2_open (k_sh k) = true.
+Proof. exact client_exit_reaches_server_refuted. Qed.
+Print Assumptions C10_client_exit_reaches_server_refuted.
+
+(* any later write of the client's h2 buffer releases what was held back *)
+Theorem C10_flush_releases_held :
+  forall s, all_calls (fun k => negb (k_held k)) (fst (step s CFlush)).
+Proof. exact flush_releases_held. Qed.
+Print Assumptions C10_flush_releases_held.
 
 (* (2c) the server side alone, against any client that has closed its half of every stream: a finished
    handler must not keep an h2 stream open.
@@ -68,6 +104,18 @@ Theorem C10_leak_class_is_D4 :
   x = KBase /\ h2_open (k_sh k) = true /\ h_se (k_sh k) = false.
 Proof. exact leak_is_D4. Qed.
 Print Assumptions C10_leak_class_is_D4.
+
+(* (2d) the mechanism for error endings: non-OK trailers -- sent explicitly or at the end of a handler
+   that failed -- leave the stream closed at the server at once (RST_STREAM after the trailers when the
+   client has not ended its half), so it stops counting before the client reacts *)
+Theorem C10_error_status_closes_stream :
+  forall s c k, nth_error (calls s) c = Some k -> k_sph k = SRunning ->
+  (snd (step s (STrailers c true)) = ONone ->
+   exists k', nth_error (calls (fst (step s (STrailers c true)))) c = Some k' /\ h2_open (k_sh k') = false) /\
+  (k_trail k = false -> k_cancel k = false ->
+   exists k', nth_error (calls (fst (step s (SExit c KErr)))) c = Some k' /\ h2_open (k_sh k') = false).
+Proof. exact error_status_closes_stream. Qed.
+Print Assumptions C10_error_status_closes_stream.
 
 (* (3) waiters.  No lost wake-up: in every reachable quiescent state a call blocked on
    stream_close_waiter faces as many open outbound streams as the last announced limit allows *)
@@ -117,7 +165,7 @@ Theorem C10_woken_without_slot_reblocks :
   (maxc s <= Z.of_nat (open_out s))%Z ->
   snd (step s (COpenTry c es)) = OBlocked /\
   fst (step s (COpenTry c es)) =
-    Build_state (upd c (set_cph CWaiting) (calls s)) (creg s) (sreg s) (maxc s) false (sq s).
+    Build_state (upd c (set_cph CWaiting) (calls s)) (creg s) (sreg s) (maxc s) false (sq s) (cpaused s).
 Proof. exact woken_without_slot_reblocks. Qed.
 Print Assumptions C10_woken_without_slot_reblocks.
 
